@@ -10,7 +10,7 @@ PID = "C16"
 HEADER = ("From Coq Require Import ZArith List PrimFloat.\n"
           "From Hy Require Import Base.Num Model.Grid Model.Intersect.")
 
-NSESS_QUICK = int(__import__("os").environ.get("C16_NSESS_TMP", 60))     # operation sequences in the quick tier
+NSESS_QUICK = 80     # operation sequences in the quick tier
 EDGE = 1e-9          # a centre closer than this (in coarse cells) to a cell edge may go either side
 WTOL = 1e-12         # relative tolerance per accumulated addition on a weight
 
